@@ -260,6 +260,12 @@ def simplify_equality(
     if isinstance(simplified_equation, BooleanTrue):
         return None
 
+    if not isinstance(simplified_equation, Eq):
+        # the equation has no solution and PDDL has no constant for "false": print the equation as it was given.
+        simplified_equation = Eq(
+            transformed_left_expr, transformed_right_expr, evaluate=False
+        )
+
     pddl_left_side = convert_expr_to_pddl(
         simplified_equation.lhs, symbolic_vars, decimal_digits=decimal_digits
     )
